@@ -230,13 +230,13 @@ Proof.
 Qed.
 
 (* ------------------------------------------------------------------ document order *)
-Lemma ordb_head : forall x l y, ordb (x :: l) = true -> x <> 0 -> In y l -> y <> 0 -> x < y.
+Lemma ordb_head : forall x l y, ordb (x :: l) = true -> x <> 0 -> In y l -> y <> 0 -> x <= y.
 Proof.
   intros x l y H Hx Hin Hy. cbn in H. apply andb_true_iff in H. destruct H as [H _].
-  rewrite forallb_forall in H. specialize (H y Hin). unfold id_lt in H.
+  rewrite forallb_forall in H. specialize (H y Hin). unfold id_le in H.
   apply orb_true_iff in H. destruct H as [H|H].
   - apply orb_true_iff in H. destruct H as [H|H]; apply Nat.eqb_eq in H; contradiction.
-  - apply Nat.ltb_lt in H. exact H.
+  - apply Nat.leb_le in H. exact H.
 Qed.
 Lemma ordb_tail : forall x l, ordb (x :: l) = true -> ordb l = true.
 Proof. intros x l H. cbn in H. apply andb_true_iff in H. tauto. Qed.
@@ -247,8 +247,8 @@ Proof.
   destruct (IH _ H2) as [Ha Hb]. rewrite forallb_app in H1. apply andb_true_iff in H1.
   destruct H1 as [H1 _]. rewrite H1, Ha. auto.
 Qed.
-Lemma ordb_app_lt : forall a b x y,
-  ordb (a ++ b) = true -> In x a -> In y b -> x <> 0 -> y <> 0 -> x < y.
+Lemma ordb_app_le : forall a b x y,
+  ordb (a ++ b) = true -> In x a -> In y b -> x <> 0 -> y <> 0 -> x <= y.
 Proof.
   induction a as [|z a IH]; intros b x y H Hx Hy Hx0 Hy0; [destruct Hx|].
   destruct Hx as [->|Hx].
@@ -435,4 +435,126 @@ Proof.
   - cbn [pre_ids_l]. apply in_or_app. apply in_app_or in Hin. destruct Hin as [Hin|Hin].
     + left. apply trunc_keeps_earlier_obj; assumption.
     + right. apply IH; assumption.
+Qed.
+
+(* ------------------------------------------------------------------ objects appended behind a definition *)
+Lemma stops_later : forall n o, n < oid o -> stops (S n) o = true.
+Proof.
+  intros n o H. unfold stops.
+  replace (oid o =? 0)%nat with false by (symmetry; apply Nat.eqb_neq; lia).
+  apply Nat.leb_le. exact H.
+Qed.
+
+(* whatever is appended to a document, as long as every object of it carries an id above n,
+   changes nothing for the definition with id n: this is the positive form of the clause
+   "later definitions are irrelevant" for objects that all carry ids - which, since the prefix
+   scopes of dotted names carry the id of the object they lead to (/repo 2398dd1), is every
+   parsed document (ParserShape.parse_all_have_ids) *)
+Lemma resolve_id_later_appended : forall env diff t later n,
+  doc_ordered t = true -> doc_ordered (t ++ later) = true ->
+  (forall id, In id (pre_ids_l later) -> n < id) ->
+  resolve_id env diff (t ++ later) n = resolve_id env diff t n.
+Proof.
+  intros env diff t later n Hd Hd' Hl. apply resolve_id_backward_only; try assumption.
+  destruct later as [|o l2]; [rewrite app_nil_r; reflexivity|].
+  apply trunc_objs_app_stop. apply stops_later. apply Hl.
+  cbn [pre_ids_l]. apply in_or_app. left. destruct (pre_ids_head o) as [l Hh]. rewrite Hh. left; reflexivity.
+Qed.
+
+(* the same inside a scope: objects appended behind the last child of an enclosing scope *)
+Lemma trunc_obj_kids_appended : forall m h ks later a,
+  (forall id, In id (pre_ids_l later) -> m <= id /\ id <> 0) ->
+  trunc_obj m (Scp h (ks ++ later) a) = trunc_obj m (Scp h ks a).
+Proof.
+  intros m h ks later a Hl. rewrite !trunc_obj_scp. f_equal.
+  destruct later as [|o l2]; [rewrite app_nil_r; reflexivity|].
+  apply trunc_objs_app_stop.
+  assert (Ho : In (oid o) (pre_ids_l (o :: l2))).
+  { cbn [pre_ids_l]. apply in_or_app. left. destruct (pre_ids_head o) as [l Hh]. rewrite Hh. left; reflexivity. }
+  destruct (Hl _ Ho) as [H1 H2]. unfold stops.
+  replace (oid o =? 0)%nat with false by (symmetry; apply Nat.eqb_neq; exact H2).
+  apply Nat.leb_le. exact H1.
+Qed.
+
+(* ------------------------------------------------------------------ lead_ids: the same ids as pre_ids *)
+Lemma lead_ids_scp : forall h ks a,
+  lead_ids (Scp h ks a) =
+  match lead_ids_l ks with
+  | x :: _ => if (opid h =? x)%nat then lead_ids_l ks else opid h :: lead_ids_l ks
+  | [] => [opid h]
+  end.
+Proof. reflexivity. Qed.
+
+Lemma lead_ids_in : forall o x, In x (lead_ids o) <-> In x (pre_ids o).
+Proof.
+  intros o. induction o as [h ws a|h ks a IH] using obj_ind2; intros x; [reflexivity|].
+  rewrite lead_ids_scp, pre_ids_scp.
+  assert (HL : In x (lead_ids_l ks) <-> In x (pre_ids_l ks)).
+  { induction IH as [|k r Hk Hr IHr]; [reflexivity|]. cbn [lead_ids_l pre_ids_l].
+    rewrite !in_app_iff, Hk, IHr. reflexivity. }
+  destruct (lead_ids_l ks) as [|y L] eqn:E.
+  - cbn [In]. rewrite <- HL. cbn [In]. reflexivity.
+  - destruct (opid h =? y)%nat eqn:Ey.
+    + apply Nat.eqb_eq in Ey. subst y. cbn [In] in *. rewrite <- HL. tauto.
+    + cbn [In] in *. rewrite <- HL. reflexivity.
+Qed.
+Lemma lead_ids_l_in : forall l x, In x (lead_ids_l l) <-> In x (pre_ids_l l).
+Proof.
+  induction l as [|k r IH]; intros x; [reflexivity|]. cbn [lead_ids_l pre_ids_l].
+  rewrite !in_app_iff, lead_ids_in, IH. reflexivity.
+Qed.
+Lemma lead_ids_l_app : forall a b, lead_ids_l (a ++ b) = lead_ids_l a ++ lead_ids_l b.
+Proof. induction a as [|k r IH]; intros b; [reflexivity|]. cbn [app lead_ids_l]. rewrite IH, app_assoc. reflexivity. Qed.
+
+(* in a run lo, lo+1, ... everything in a front part is below everything in the rest *)
+Lemma seq_split_lt : forall a lo m b x y, seq lo m = a ++ b -> In x a -> In y b -> x < y.
+Proof.
+  induction a as [|z a IH]; intros lo m b x y E Hx Hy; [destruct Hx|].
+  destruct m as [|m]; [discriminate E|]. cbn [seq app] in E. inversion E as [[Ez Er]]. subst z.
+  destruct Hx as [<-|Hx].
+  - assert (Hin : In y (seq (S lo) m)) by (rewrite Er; apply in_or_app; right; exact Hy).
+    apply in_seq in Hin. lia.
+  - exact (IH (S lo) m b x y Er Hx Hy).
+Qed.
+
+(* when the ids of the whole are exactly 1, 2, ... (what the parser hands out), no side condition on
+   the appended objects is left: they cannot but come later *)
+Lemma resolve_id_appended_consecutive : forall env diff t later n m,
+  doc_ordered t = true -> doc_ordered (t ++ later) = true ->
+  lead_ids_l (t ++ later) = seq 1 m ->
+  In n (pre_ids_l t) ->
+  resolve_id env diff (t ++ later) n = resolve_id env diff t n.
+Proof.
+  intros env diff t later n m Hd Hd' Hs Hn. apply resolve_id_later_appended; try assumption.
+  intros id Hid. rewrite lead_ids_l_app in Hs.
+  apply (seq_split_lt (lead_ids_l t) 1 m (lead_ids_l later)); [symmetry; exact Hs| |]; apply lead_ids_l_in; assumption.
+Qed.
+
+(* truncation only removes objects *)
+Lemma trunc_ids_subset_obj : forall n o id, In id (pre_ids (trunc_obj n o)) -> In id (pre_ids o).
+Proof.
+  intros n o. induction o as [h ws a|h ks a IH] using obj_ind2; intros id H; [exact H|].
+  rewrite trunc_obj_scp, pre_ids_scp in H. rewrite pre_ids_scp. destruct H as [<-|H]; [left; reflexivity|right].
+  induction IH as [|k r Hk Hr IHr]; [destruct H|].
+  cbn [trunc_objs] in H. destruct (stops n k); [destruct H|].
+  cbn [pre_ids_l] in *. apply in_or_app. apply in_app_or in H. destruct H as [H|H]; [left; apply Hk; exact H|right; apply IHr; exact H].
+Qed.
+Lemma trunc_ids_subset : forall n l id, In id (pre_ids_l (trunc_objs n l)) -> In id (pre_ids_l l).
+Proof.
+  intros n l. induction l as [|k r IH]; intros id H; [destruct H|].
+  cbn [trunc_objs] in H. destruct (stops n k); [destruct H|].
+  cbn [pre_ids_l] in *. apply in_or_app. apply in_app_or in H.
+  destruct H as [H|H]; [left; eapply trunc_ids_subset_obj; exact H|right; apply IH; exact H].
+Qed.
+
+(* for a document in document order all of whose objects carry an id, the truncation at n holds
+   exactly the ids below n *)
+Lemma trunc_ids_exact : forall n l id,
+  ordb (pre_ids_l l) = true -> ~ In 0 (pre_ids_l l) ->
+  (In id (pre_ids_l (trunc_objs n l)) <-> In id (pre_ids_l l) /\ id < n).
+Proof.
+  intros n l id Ho H0. split.
+  - intros H. pose proof (trunc_ids_subset n l id H) as Hin. split; [exact Hin|].
+    destruct (trunc_objs_ids_below n l id H) as [->|Hlt]; [contradiction|exact Hlt].
+  - intros [Hin Hlt]. apply trunc_keeps_earlier; try assumption. intros ->. contradiction.
 Qed.
